@@ -46,7 +46,8 @@ def tcmp(ex, op, a, b):
 @exact("time.Now")
 def time_now(ex, g, fid, args):
     if ex.opts.get("concrete_time"):
-        ex.now_conc = getattr(ex, "now_conc", 1_700_000_000_000_000_000) + 1_000_000
+        # 1 microsecond per call: several calls share one millisecond, as on a real machine
+        ex.now_conc = getattr(ex, "now_conc", 1_700_000_000_000_000_000) + 1_000
         return mktime(ex.now_conc)
     if ex.pinned is not None:
         raise Unsupported("time.Now in pinned mode")
@@ -326,11 +327,39 @@ def functional_havoc(ex, table, key_parts, nbytes, nfresh, kind):
     return out
 
 
-@pattern(r"^go\.brendoncarroll\.net/p2p/p/p2pke\.createPreSig$")
-def p2pke_presig(ex, g, fid, args):
-    purpose, msg = args
-    out = functional_havoc(ex, ex.hash_tables.setdefault("presig", []), [list(purpose), slice_elems(msg)], 64, 2, "ps")
-    return Tup([out, None])
+# blake2b XOF (used by the real createPreSig, which is executed): an object accumulating what is
+# written; reading yields a functional havoc of the accumulated input (equal inputs => equal output).
+class XofObj:
+    def __init__(self):
+        self.buf = []
+        self.out = None
+        self.pos = 0
+
+
+@exact("golang.org/x/crypto/blake2b.NewXOF")
+def blake2b_newxof(ex, g, fid, args):
+    return Tup([Iface("op:xof", XofObj()), None])
+
+
+@exact("op:xof.Write")
+def xof_write(ex, g, fid, args):
+    x = args[0]
+    data = slice_elems(args[1])
+    x.buf.extend(data)
+    return Tup([len(data), None])
+
+
+@exact("op:xof.Read")
+def xof_read(ex, g, fid, args):
+    x = args[0]
+    p = args[1]
+    if x.out is None:
+        x.out = functional_havoc(ex, ex.hash_tables.setdefault("xof", []), [list(x.buf)], 64, 2, "ps")
+    n = min(p.len, len(x.out) - x.pos)
+    for k in range(n):
+        p.arr[p.off + k] = x.out[x.pos + k]
+    x.pos += n
+    return Tup([n, None])
 
 
 @exact("golang.org/x/crypto/blake2b.Sum256")
